@@ -1,6 +1,7 @@
 import OrsoVerif.Lemmas.DistogramState
 import OrsoVerif.Lemmas.DistogramRefine
 import OrsoVerif.Lemmas.DistogramFaithful
+import OrsoVerif.Lemmas.DistogramCacheLive
 import Mathlib.Algebra.Order.Ring.Rat
 import Mathlib.Algebra.Field.Rat
 /-!
@@ -155,14 +156,14 @@ theorem dump_load_id (s : RState K) (h : Hist K) :
     (load h.bins h.min h.max).minDiff = listMin (gaps h.bins) ∧
     (load h.bins h.min h.max).cap = Gen.Distogram.binCount ∧
     (dumpLoadRef s).cap = Gen.Distogram.binCount :=
-  ⟨rfl, rfl, rfl, rfl, rfl, rfl, by simp [load, loadDiffs_eq_gaps], by simp [load, loadDiffs_eq_gaps], rfl, rfl⟩
+  ⟨rfl, rfl, rfl, rfl, rfl, rfl, by simp [load_def, loadDiffs_eq_gaps], by simp [load_def, loadDiffs_eq_gaps], rfl, rfl⟩
 
 /-- Known finding C13-K01 (model level): `load` forgets the configured maximum, so a histogram
 dumped with more bins than the module default is above its limit as soon as it is loaded. -/
 theorem load_over_default_exceeds (bins : List (K × K)) (mn mx : Option K)
     (h : Gen.Distogram.binCount < bins.length) :
     ¬ (load bins mn mx).bins.length ≤ (load bins mn mx).cap := by
-  simpa [load] using h
+  simpa [load_def] using h
 
 /-- Known finding C13-K01, the other half — what the unchanged tree does and what the tightened predicate of the
 check relies on: **the first update that inserts a bin ends within the limit, however many bins `load()` left**
@@ -295,6 +296,52 @@ theorem source_operations_assembled (h t : Hist K) (pairs : List (K × K)) (lo h
         .ok { h with diffs := some s2.1, minDiff := md }) :=
   ⟨add_def h t, bulk_def h pairs lo hi, updateDiffs_def h i⟩
 
+/-- **The tests on the optional cache of adjacent differences are `is not None` / `is None`, not truthiness**
+(`Gen.DistogramOps.*`, regenerated from `_update_diffs`, `_trim` (twice), `update` (twice) and `_search_in_place_index` on
+every run).  `load()` of a histogram with a single bin creates the EMPTY list with an infinite minimum; that list is a
+cache (it `is not None`) and every one of the five maintaining sites must treat it as one, or it is never filled while
+`_search_in_place_index` never computes it either and every interior value of the full histogram is merged in place.
+Also regenerated: `update` appends iff `index == -1`; `merge` hands `(value, count)` of each bin to `update` in that
+order; `_compute_diffs` caches `v2 - v1`; `load` computes `len - 1` differences and takes `min(diffs)` iff there is a gap, infinity otherwise; `_trim` without a cache records
+`(i - 1, b[0] - bins[i - 1][0])` for the pair ending at bin `i`. -/
+theorem source_cache_tests (d : Option (List K)) (neg : Bool) (idx : Nat) (i : Int) (v1 v2 : K) (l : List K) :
+    Gen.DistogramOps.udCache d = d.isSome ∧ Gen.DistogramOps.trimCachePick d = d.isSome ∧
+    Gen.DistogramOps.trimCacheKeep d = d.isSome ∧ Gen.DistogramOps.appendCache d = d.isSome ∧
+    Gen.DistogramOps.insertCache d = d.isSome ∧ Gen.DistogramOps.searchNoCache d = d.isNone ∧
+    Gen.DistogramOps.isAppend (if neg then -1 else (idx : Int)) = neg ∧
+    Gen.DistogramOps.mergeValue v1 v2 = v1 ∧ Gen.DistogramOps.mergeCount v1 v2 = v2 ∧
+    Gen.DistogramOps.computeGap v1 v2 = v2 - v1 ∧
+    (Gen.DistogramOps.loadHasDiffs l = true ↔ l ≠ []) ∧
+    Gen.DistogramOps.trimScanIdx i = i - 1 ∧ Gen.DistogramOps.trimScanGap v1 v2 = v2 - v1 ∧
+    Gen.DistogramOps.loadTurns i = i - 1 ∧ (Gen.DistogramOps.loadNoDiffs : Option K) = none :=
+  ⟨udCache_eq d, trimCachePick_eq d, trimCacheKeep_eq d, appendCache_eq d, insertCache_eq d, searchNoCache_eq d,
+   isAppend_eq neg idx, rfl, rfl, rfl, by cases l <;> simp [Gen.DistogramOps.loadHasDiffs, Gen.DistogramOps.listTruthy],
+   rfl, rfl, rfl, rfl⟩
+
+/-- **The model's cache bookkeeping, `_compute_diffs`, `merge`, `load` and the cache-less `_trim` are these statements** —
+the equations the proofs of `cache_coherent`, `trim_refines_reference` and `refines_reference` unfold: a cache that is
+set (even empty) is looked up and maintained, none is computed by `_compute_diffs` as the adjacent gaps, `_trim`
+without a cache merges the first closest adjacent pair, and a loaded histogram's cache is the gaps with their minimum
+(infinite for a single bin). -/
+theorem source_cache_assembled (h : Hist K) (other bins : List (K × K)) (mn mx : Option K) :
+    (trimIndex h = match h.diffs with
+      | some d =>
+        (match h.minDiff with
+         | some md => (match indexOf md d with
+                       | some i => .ok i
+                       | none => .error "ValueError")
+         | none => .error "ValueError")
+      | none => (match gaps h.bins with
+                 | [] => .error "ValueError"
+                 | g => .ok (argminFirst g))) ∧
+    (computeDiffs h = match listMin (gaps h.bins) with
+      | some m => .ok { h with diffs := some (gaps h.bins), minDiff := some m }
+      | none => .error "ValueError") ∧
+    merge h other = other.foldlM (fun acc b => update acc b.1 b.2) h ∧
+    load bins mn mx = { bins := bins, min := mn, max := mx, diffs := some (gaps bins), minDiff := listMin (gaps bins),
+                        cap := Gen.Distogram.binCount } :=
+  ⟨trimIndex_def h, computeDiffs_def h, merge_def h other, by rw [load_def, loadDiffs_eq_gaps]⟩
+
 /-- **The first value of a stream sets both bounds** (and so does every later one that is a new extreme): after a
 successful `update` of the *empty* histogram the minimum and the maximum are both the inserted value — single-value
 streams, streams whose first value is the largest, strictly descending streams. -/
@@ -326,6 +373,36 @@ theorem cache_coherent {h : Hist K} (hb : FBuilt h) :
   cases hm : h.minDiff with
   | none => rw [hm] at c; exact c
   | some m => rw [hm] at c; exact c
+
+/-- **A loaded histogram — however small — is served by a live, correct cache for the rest of its life.**  `load()` of
+any non-empty dump (a SINGLE bin included: then the cache is the empty list, which `is not None`, with an infinite
+minimum) followed by any number of successful updates (`merge` folds `update` over a list of (value, count) pairs: the
+further updates of the property's "dump/load followed by further updates") leaves `diffs` *set* and equal to the adjacent
+gaps of the current bins, with `min_diff` their minimum (infinite iff there is no gap).  A cache that is set is never
+un-set by `update` (`cache_stays_set`), and a set cache is maintained by every path (`update_keeps_cache_coherent`). -/
+theorem loaded_cache_stays_live {bins vs : List (K × K)} {mn mx : Option K} {h' : Hist K} (hne : bins ≠ [])
+    (hok : merge (load bins mn mx) vs = .ok h') :
+    h'.diffs = some (gaps h'.bins) ∧
+    (match h'.minDiff with
+     | none => gaps h'.bins = []
+     | some m => m ∈ gaps h'.bins ∧ ∀ x ∈ gaps h'.bins, m ≤ x) := by
+  rw [merge_def] at hok
+  have hs : (load bins mn mx).diffs.isSome = true := by rw [load_def]; rfl
+  have hset := foldUpdate_isSome vs hok hs
+  obtain ⟨hc, _⟩ := coherent_foldUpdate vs (coherent_load bins mn mx hne) hok
+  obtain ⟨d, hd⟩ := Option.isSome_iff_exists.mp hset
+  obtain ⟨_, hg, hm⟩ := hc d hd
+  subst hg
+  refine ⟨hd, ?_⟩
+  cases hmd : h'.minDiff with
+  | none => rw [hmd] at hm; exact hm
+  | some m => rw [hmd] at hm; exact hm
+
+/-- One step: **a cache that is set stays set** through every path of `update` (exact hit, in-place merge, append, insert,
+every turn of `_trim`). -/
+theorem cache_stays_set {h h' : Hist K} {v c : K} (hok : update h v c = .ok h') (hd : h.diffs.isSome = true) :
+    h'.diffs.isSome = true :=
+  update_isSome hok hd
 
 /-- One step of the invariant: a successful `update` of a coherent state is coherent and keeps the limit. -/
 theorem update_keeps_cache_coherent {h h' : Hist K} {v c : K} (hc : Coherent h) (hok : update h v c = .ok h') :
@@ -458,6 +535,14 @@ example :
      (update h5 40 1).bind fun h6 =>      -- append + trim
      .ok (h6.bins, h6.diffs, h6.minDiff))
       = .ok ([(0, 1), (81 / 5, 5), (40, 1)], some [81 / 5, 119 / 5], some (81 / 5)) := by
+  decide +kernel
+
+/-- Non-vacuity of `loaded_cache_stays_live`: a single-bin dump is loaded (empty cache, infinite minimum), then a new
+minimum is inserted and a new maximum appended — the cache is filled and kept. -/
+example :
+    ((merge (load [((10 : ℚ), 3)] (some 10) (some 10)) [(0, 1), (25, 2)]).map fun h => (h.bins, h.diffs, h.minDiff)) =
+      .ok ([(0, 1), (10, 3), (25, 2)], some [10, 15], some 10) ∧
+    (load [((10 : ℚ), 3)] (some 10) (some 10)).diffs = some [] ∧ (load [((10 : ℚ), 3)] (some 10) (some 10)).minDiff = none := by
   decide +kernel
 
 /-- Non-vacuity of `FHist` / `FLedger`: the history above up to the in-place merge runs on both machines without
